@@ -99,6 +99,20 @@ def _install(ctx):
 
     def corpus(self, area):
         lines = orig_corpus(area)
+        if area == "forced" and self.extra.get("forced_in_capacity_measured"):
+            # fallback build: histories with a large burst in one line are too expensive for the model's exploration
+            # when `in` is large (the submitter can be dozens of sends ahead of the dispatcher): leave them out
+            hists, cur = [], []
+            for l in lines:
+                if l.startswith("reset") and cur:
+                    hists.append(cur)
+                    cur = []
+                cur.append(l)
+            if cur:
+                hists.append(cur)
+            keep = [h for h in hists if not any(x.startswith("sub ") and len(x) > 4 + 8 for x in h)]
+            self.extra["forced_corpus_histories_left_out_in_fallback"] = len(hists) - len(keep)
+            lines = [l for h in keep for l in h]
         return _annotate(self, lines, True) if area == "forced" else lines
 
     def mismatch(self, area, driver, name, hist, canon, extra_env=None):
@@ -242,8 +256,8 @@ def run(ctx):
            "(for one worker: including the start and finish order) that the model predicts")
     skip_forced = "forced" in ctx.extra.get("skipped_areas", [])
     # with the real (large) `in` capacity the submitter runs far ahead of the dispatcher and the model's exploration of
-    # all interleavings is several times more expensive: a third of the lines in the fallback build
-    k = 3 if ctx.extra.get("forced_in_capacity_measured") else 1
+    # all interleavings is more expensive: half of the lines in the fallback build
+    k = 2 if ctx.extra.get("forced_in_capacity_measured") else 1
     if not skip_forced:
         ctx.diff(area="forced", driver="drv_c15", n={"quick": 6000 // k, "thorough": 200000 // k}, stateful=True,
                  trivial=_trivial, tagger=_tag, timeout=1500, theorem=thm, what=what)
